@@ -738,7 +738,7 @@ func c16RunCase(t *testing.T, k c16Knobs, seed int64) c16Obs {
 			}
 			// the command itself may be held behind a blocking request issued by an
 			// earlier, still queued command: keep cancelling what cannot end by itself
-			verifrt.WaitUntil(20*time.Second, func() bool {
+			issued := verifrt.WaitUntil(6*time.Second, func() bool {
 				select {
 				case <-cmd.done:
 					return true
@@ -747,6 +747,12 @@ func c16RunCase(t *testing.T, k c16Knobs, seed int64) c16Obs {
 				cancelLeftExcept(rec)
 				return false
 			})
+			if !issued {
+				// not admitted in time (pacing only): no held group by construction
+				close(sp.Gate)
+				ep.released = true
+				continue
+			}
 			ep.nHeld = 2 + rng.Intn(7)
 			for i := 0; i < ep.nHeld; i++ {
 				sendOrd(ep.group, false)
